@@ -651,6 +651,14 @@ class VTCase(unittest.TestCase):
             os.chdir(tempfile.mkdtemp(prefix='vt-chdir-',
                                       dir=os.environ.get('VT_SCRATCH_RUN') or '/dev/shm'))
             return
+        if s == 'rmcwd':
+            # ... and removes it: os.getcwd() raises FileNotFoundError from
+            # now on (setUp: mkdtemp + chdir, tearDown: rmtree)
+            import tempfile
+            d = tempfile.mkdtemp(prefix='vt-rmcwd-', dir=os.environ.get('VT_SCRATCH_RUN') or '/dev/shm')
+            os.chdir(d)
+            os.rmdir(d)
+            return
         if s == 'settrace':
             def _tracer(frame, event, arg):
                 return None
